@@ -9,7 +9,7 @@ git -C /repo worktree add -q --detach $WT HEAD || exit 2
 cd $WT
 git apply $D/patch.diff || { echo "PATCH DOES NOT APPLY"; git -C /repo worktree remove --force $WT; exit 2; }
 T=$(/venv/bin/python -m pytest -q -p no:cacheprovider tests 2>&1 | tail -1); echo "tests with patch: $T"
-mkdir -p _out; cp $D/demo.py _out/demo.py; sed -i "s#/tmp/wt-c20-[0-9]*#$WT#g" _out/demo.py
+mkdir -p _out; cp $D/demo.py _out/demo.py; sed -i "s#/tmp/wt-[a-z0-9]*-[0-9]*#$WT#g" _out/demo.py
 /venv/bin/python _out/demo.py >/dev/null 2>&1; echo "demo with patch rc=$?"
 git apply -R $D/patch.diff
 /venv/bin/python _out/demo.py >/dev/null 2>&1; echo "demo without patch rc=$?"
